@@ -134,7 +134,7 @@ def run(pid, tier, replay=None):
                     "getdata_unknown_hash", "peers_with_unusable_addresses", "repeated_greeting", "empty_inventory", "get_peers",
                     "duplicate_block", "trailing_garbage_frame", "random_bytes", "bit_flipped_frame", "spliced_frames", "truncated_then_valid"]
     block_classes = {"block_invalid_by_itself": ["merkle", "badpow", "cb_height", "no_reward", "two_rewards", "cb_blank"],
-                     "block_invalid_in_state": ["badtarget", "ts_equal", "evidence", "height_plus", "reward+1"],
+                     "block_invalid_in_state": ["badtarget", "ts_equal", "evidence", "evidence_otherchain", "evidence_otherchain", "evidence_otherchain", "evidence_otherchain", "height_plus", "reward+1"],
                      "block_that_cannot_be_applied": ["ghost", "spent"],
                      "orphan_block": ["orphan"], "valid_block": [""]}
     tx_classes = {"transaction_invalid": ["wrongkey", "sig_outs", "overspend", "ghost", "noouts", "dupin", "blank"],
@@ -149,7 +149,7 @@ def run(pid, tier, replay=None):
         try:
             rec = NodeRec(run_, rng)
             rt = RandomTree(w, rec, rng, nkeys=3, p_mut=0.0)
-            for _ in range(3):
+            for _ in range(3 if i % 2 else 6):
                 rt.step()
             run_.events, run_.labels = [], []
             gen = Gen(run_, rt, rng)
